@@ -242,3 +242,61 @@ func eccCompare(l *mc.Local, s dm.Symbol, name string, data []byte, cs rcase, no
 	chk.Violation(key, what, cs)
 	return true
 }
+
+// eccSpecialCase: data vectors whose Reed-Solomon parity is special. kind 0: ALL-ZERO parity in
+// every interleaved block (each block's data is a multiple of the generator polynomial: its last
+// ec codewords are the remainder of the ones before them); kind 1: in block 0 only; kind 2: the
+// first parity codeword of every block is zero (found by trying the 256 values of the block's
+// last data codeword). No text and no fixed pattern produces such parity.
+func eccSpecialCase(l *mc.Local, s dm.Symbol, kind int) bool {
+	data := make([]byte, s.DataCW)
+	for i := range data {
+		data[i] = byte(i*i*29 + i*11 + 3 + kind)
+	}
+	ec := s.ECPerBlock()
+	constructible := false
+	for b := 0; b < s.Blocks; b++ {
+		var idx []int
+		for i := b; i < s.DataCW; i += s.Blocks {
+			idx = append(idx, i)
+		}
+		blk := make([]byte, len(idx))
+		for k, i := range idx {
+			blk[k] = data[i]
+		}
+		switch {
+		case kind == 2:
+			for v := 0; v < 256; v++ {
+				blk[len(blk)-1] = byte(v)
+				if dm.RSParity(blk, ec)[0] == 0 {
+					constructible = true
+					break
+				}
+			}
+		case (kind == 0 || b == 0) && len(blk) > ec:
+			copy(blk[len(blk)-ec:], dm.RSParity(blk[:len(blk)-ec], ec))
+			constructible = true
+		}
+		for k, i := range idx {
+			data[i] = blk[k]
+		}
+	}
+	if !constructible {
+		l.Count("special_parity_not_constructible", 1)
+		return true
+	}
+	name := []string{"zero parity in every block", "zero parity in block 0", "first parity codeword of every block zero"}[kind]
+	return eccCompare(l, s, name, data, rcase{Sub: "eccz", Rows: s.Rows, Cols: s.Cols, Vec: name, Index: kind}, true)
+}
+
+func runECCSpecial() {
+	chk.Range("ErrorCorrection_EncodeECC200 on algebraically special vectors: 30 sizes x {ALL-ZERO parity in every block, in block 0 only, first parity codeword of every block zero}", len(dm.Symbols),
+		func(i int) string { return fmt.Sprint(dm.Symbols[i]) },
+		func(l *mc.Local, i int) {
+			for kind := 0; kind < 3; kind++ {
+				if !eccSpecialCase(l, dm.Symbols[i], kind) {
+					return
+				}
+			}
+		})
+}
